@@ -618,8 +618,11 @@ class CppFullGenerator(GeneratorBase):
                 raise GenerateError('{0} byte size unknown'.format(n.name))
             if isinstance(n, model.Struct):
                 occured = set()
-                for m in n.members:
+                for i, m in enumerate(n.members):
                     if m.bound:
+                        if m.bound not in (x.name for x in n.members[:i]):
+                            raise GenerateError('Sizing member {} of array {}.{} not found'.format(
+                                m.bound, n.name, m.name))
                         if m.bound in occured:
                             raise GenerateError('Multiple arrays bounded by the same member ({}) in struct {} is '
                                                 'not supported'.format(m.bound, n.name))
